@@ -458,7 +458,7 @@ impl<'a> RawFile<'a> {
                 warnings,
             );
         }
-        if s.ne > 255 {
+        if s.ne > 256 {
             return (
                 Err(DeserializationError::TooManyExtensibleCharacters(s.ne)),
                 warnings,
